@@ -153,7 +153,9 @@ def body_distance(ctx, case):
         ctx.nontrivial(("distance", a, b, sub, ins, dele))
     if not a or not b:
         ctx.event("an_empty_sequence")
-    d = ctx.must("distance_raises", sa.levenshtein_distance, list(a), list(b), sub, ins, dele)
+    a_in, b_in = list(a), list(b)
+    d = ctx.must("distance_raises", sa.levenshtein_distance, a_in, b_in, sub, ins, dele)
+    ctx.check(typed_eq_list(a_in, a) and typed_eq_list(b_in, b), "distance_modifies_its_input", lambda: "a=%r b=%r" % (a_in, b_in))
     ctx.check(plain(d) == ref, "distance_wrong", lambda: "a=%r b=%r costs=%r got %r want %r" % (a, b, (sub, ins, dele), d, ref))
 
     al = ctx.must("alignment_raises", sa.levenshtein_alignment, list(a), list(b), sub, ins, dele)
